@@ -121,7 +121,7 @@ class ObjectNaming(Bounded):
     """within_directory on the real Path objects: the result lies below the directory and distinct (normalised)
     names give distinct results; stripext only strips the extension of the last component."""
     target = 'bfg9000/builtins/path.py::within_directory'
-    properties = ('C05', 'C19')
+    properties = ('C05', 'C19', 'C12')
     reason = 'BasePath.relpath/append/stripext delegate to posixpath (library) and re-normalise: runtime contract only'
 
     def cases(self):
@@ -239,10 +239,11 @@ class ObjectCollisions(Bounded):
             return True
         srcs = self.SETS[raw['sources']]
         body = ("t = executable('prog', files=%r)\nu = executable('other/prog2', files=%r)\n"
-                "for x in (t, u):\n    env.trace.append(('objs', [(str(o.path.root), o.path.suffix) for o in x.creator.files]))\n"
+                "v1 = executable('prog.v1', files=%r)\nv2 = executable('prog.v2', files=%r)\n"
+                "for x in (t, u, v1, v2):\n    env.trace.append(('objs', [(str(o.path.root), o.path.suffix) for o in x.creator.files]))\n"
                 "    env.trace.append(('gens', [(str(o.creator.file.path.root), o.creator.file.path.suffix) for o in x.creator.files "
                 "if o.creator.file.creator]))\n"
-                % (srcs, srcs[:2]))
+                % (srcs, srcs[:2], srcs[:1], srcs[:1]))
         files = {}
         if d:
             files['build.bfg'] = 'submodule(%r)\n' % d
@@ -259,7 +260,7 @@ class ObjectCollisions(Bounded):
         if any(t[0] == 'FAILED' for t in trace):
             return self.fail(case, raw, 'configure_succeeds', error=[t[1] for t in trace if t[0] == 'FAILED'][0][-500:])
         objs = [o for t in trace if t[0] == 'objs' for o in t[1]]
-        if len(objs) != len(srcs) + 2:
+        if len(objs) != len(srcs) + 4:
             return self.fail(case, raw, 'one_object_per_source', objects=objs)
         if any(r != 'Root.builddir' or s_.startswith('..') for r, s_ in objs):
             return self.fail(case, raw, 'objects_stay_in_the_build_directory', objects=sorted(objs))
@@ -280,8 +281,10 @@ c2 = copy_file('data/sym.txt', mode='symlink')
 c3 = copy_file('data/hard.txt', mode='hardlink')
 c4 = copy_file('moved/elsewhere.txt', 'data/in.txt', mode='symlink')
 gen = build_step('gen.c', cmd=['cp', source_file('tmpl.c'), 'gen.c'])
+m1 = build_step(['client/messages.c', 'client/messages.h'], cmd=['touch', 'client/messages.c', 'client/messages.h'])
+m2 = build_step(['server/messages.c', 'server/messages.h'], cmd=['touch', 'server/messages.c', 'server/messages.h'])
 sub = submodule('sub')
-default(exe, c1, c2, c3, c4, gen, sub['p'])
+default(exe, c1, c2, c3, c4, gen, sub['p'], m1[0], m2[0])
 install(exe)
 """
 
